@@ -20,7 +20,7 @@ def schema(k, sizes):
     return dims, vs[:3] if k % 2 else vs
 
 
-SETTINGS = ['dataset_before', 'dataset_between', 'dataset_after', 'pervar', 'pervar_value', 'attr', 'dataset_then_nofill', 'none']
+SETTINGS = ['dataset_before', 'dataset_between', 'dataset_after', 'pervar', 'pervar_value', 'attr', 'dataset_then_nofill', 'none', 'fill_nofill_fill', 'nofill_fill_nofill']
 FOLLOW = ['none', 'partial', 'redef_add', 'fill_rec', 'redef_twice', 'indep_redef']
 
 
@@ -36,6 +36,16 @@ def define(p, dims, vars_, setting):
         if setting == 'attr' and i != 2:
             p.do(dict(op='put_att', v=i, name='_FillValue', xtype=t, vals=(bytes([FILLV[t]]) if t == D.NC_CHAR else [FILLV[t]])))
     if setting == 'dataset_after': p.do(dict(op='set_fill', mode=1))
+    if setting == 'fill_nofill_fill':
+        # the dataset mode is already FILL, single variables are switched off, then set_fill(FILL) is called again: it applies to every variable defined so far
+        p.do(dict(op='set_fill', mode=1))
+        for i in range(0, len(vars_), 2): p.do(dict(op='def_var_fill', v=i, nofill=1))
+        p.do(dict(op='set_fill', mode=1))
+    if setting == 'nofill_fill_nofill':
+        p.do(dict(op='set_fill', mode=0))
+        for i in range(1, len(vars_), 2): p.do(dict(op='def_var_fill', v=i, nofill=0))
+        p.do(dict(op='set_fill', mode=0))
+        p.do(dict(op='def_var_fill', v=0, nofill=0))
     if setting == 'dataset_then_nofill':
         p.do(dict(op='set_fill', mode=1)); p.do(dict(op='def_var_fill', v=0, nofill=1))
 
@@ -134,7 +144,7 @@ def main(tier=None):
     if thorough:
         progs = gen((1, 2, 5), (1, 2, 3, 4), [(1, 3), (3, 5), (5, 7), (7, 1)], SETTINGS, FOLLOW, range(6))
     else:
-        progs = gen((1,), (1, 3), [(3, 5)], SETTINGS, FOLLOW, (0, 1, 4)) + gen((5,), (2, 4), [(7, 1), (5, 7)], SETTINGS[:6], ['redef_add', 'fill_rec', 'indep_redef'], (2, 3))
+        progs = gen((1,), (1, 3), [(3, 5)], SETTINGS, FOLLOW, (0, 1, 4)) + gen((5,), (2, 4), [(7, 1), (5, 7)], SETTINGS[:6] + SETTINGS[8:], ['redef_add', 'fill_rec', 'indep_redef'], (2, 3))
     progs += gen_rules()
     results = runner.run_cases(b['vx'], [p.case for p in progs], batch=40)
     for p, r in zip(progs, results):
@@ -147,7 +157,7 @@ def main(tier=None):
                     if o.get('op') == 'get': ck.outcomes.add(o.get('vals'))
     ck.cov['distinct_nontrivial'] = len(ck.outcomes)
     ck.cov['rule'] = ('schemas of 3-4 variables (fixed/record, 6 external types, element counts 1,3,5,7 so that the per-process shares are uneven) x fill setting {set_fill before/between/after the definitions, def_var_fill with and '
-                      'without value on a subset, _FillValue attribute put directly, dataset fill with one explicit no_fill variable, none} x np 1-4 x follow-up {none, partial writes, redefinition adding a fixed and a record '
+                      'without value on a subset, _FillValue attribute put directly, dataset fill with one explicit no_fill variable, none, set_fill repeated with the same mode after per-variable changes (fill / no-fill / fill and the reverse)} x np 1-4 x follow-up {none, partial writes, redefinition adding a fixed and a record '
                       'variable with 1-3 records present (once/twice), fill_var_rec + writes into filled records, independent-mode writes of a different number of records per process followed by a redefinition entered directly from independent mode}; every variable is read back on every rank after each step and the decoded file is compared; distinct_nontrivial = distinct read-back vectors')
     ck.sample(progs[0].case.text()[:1500]); ck.sample(progs[len(progs) // 2].case.text()[:1800])
     ck.assumptions += ['records created implicitly by writing a higher record are undefined content and never compared']
